@@ -54,6 +54,15 @@ def run(ck):
     res = replay(ck, rows + rows2, "TestRoutes", "C17", "route")
     ck.cov["exhaustive"] = True
     ck.cov["lookups"] = res["lookups"]
+    # lookups beside an update of the matched route: the answer is the old or the new resolution, never a mixture
+    outr = os.path.join(ck.tmp, "route_race.json")
+    ck.run_driver("./tables", "^TestRouteRace$", {"VERIF_OUT": outr})
+    rr = ck.read_result(outr)
+    if rr["updates"] < 1000:
+        raise Infra("route race leg made only %d updates" % rr["updates"])
+    ck.cov["route_race"] = {"updates": rr["updates"], "inconsistent_lookups": rr["wrong"]}
+    if rr["wrong"]:
+        ck.violation("C17:lookup-beside-update-resolves-to-a-mixture", "%d lookups of /x/live1 while the route /x/ was switched between rtsp://a:554/x/ and rtsp://b:554/yy returned neither resolution, e.g. %s" % (rr["wrong"], rr["sample"]), rr)
     for h in (rows[len(rows) // 2], rows2[0]):
         ck.sample({"history": [(o["op"], "".join(o["pattern"]), "".join(o["url"])) for o in h["hist"]],
                    "lookups": [("".join(m["req"]), "none" if m["res"].get("none") else "".join(m["res"]["url"])) for m in h["match"]][:6]})
